@@ -1,13 +1,13 @@
 SPECIFICATION Spec
 CONSTANTS
-  CL <- MC_CL2
-  OtherQ = {"c"}
+  CL <- MC_CL3
+  OtherQ = {}
   DepQ = {"d"}
   Reps = {"r1"}
   WinOf <- MC_Win
   TipAmts = {100}
   MaxH = 7
-  MaxTips = 2
+  MaxTips = 1
   MCDepWin = 3
   DepositWindow <- MCDepWin
 INVARIANT Inv
